@@ -1,7 +1,7 @@
 #!/usr/bin/env python3
 """Differential runs of the driver unit `grammar` (Model/ParserGrammar.v against the real parser) on generated case sets.
 usage: python3 tools/grammar_diff.py <set>[,<set>...] [n] [seed]
-sets: special quirks quirks2 portab singles seeds seedsdir pairs pairsfull triples soup soup30 ctxsoup mut mut2 mutdir dirheavy grammar gmut gdir nest asm bytes
+sets: fragment special quirks quirks2 portab singles seeds seedsdir pairs pairsfull triples soup soup30 ctxsoup mut mut2 mutdir dirheavy grammar gmut gdir nest asm bytes
 needs `python3 tools/vpcheck.py --setup` first; env: DRIVER, RUNDIR, NP, SHOW, KEEP, CASE_MS"""
 import sys, os, random, subprocess, time, itertools, shutil
 ROOT = os.path.dirname(os.path.dirname(os.path.abspath(__file__)))
@@ -80,6 +80,53 @@ def nest(rng, d):
     if c == 14: return "Foo(" + drop("function") + drop("(a: b)") + ": c " + drop("begin ") + many() + drop(" end") + drop(")") + drop(";")
     return rng.choice(STMTS)
 
+
+def frag_tree(rng, depth=0):
+    """a random statement list of the fragment of Model/Fragment.v:
+    ('s',) | ('a',) | ('b', body) | ('r', body) | ('t', body, fin)"""
+    out = []
+    for _ in range(rng.randrange(0, 5 if depth < 4 else 2)):
+        c = rng.randrange(7)
+        if c == 0 and depth < 6: out.append(('b', frag_tree(rng, depth + 1)))
+        elif c == 1 and depth < 6: out.append(('r', frag_tree(rng, depth + 1)))
+        elif c == 2 and depth < 6: out.append(('t', frag_tree(rng, depth + 1), frag_tree(rng, depth + 1)))
+        elif c == 3: out.append(('a',))
+        else: out.append(('s',))
+    return out
+def frag_text(tree, rng, ind=1):
+    parts = []
+    for t in tree:
+        pad = rng.choice(["  " * ind, "", " "])
+        if t[0] == 's': parts.append(pad + rng.choice(["Foo", "x", "Bar1"]) + rng.choice([";", " ;"]))
+        elif t[0] == 'a': parts.append(pad + "x" + rng.choice([" := ", ":="]) + "y;")
+        elif t[0] == 'b': parts.append(pad + "begin" + rng.choice(["\n", " "]) + frag_text(t[1], rng, ind + 1) + rng.choice(["\n", " "]) + pad + "end;")
+        elif t[0] == 'r': parts.append(pad + "repeat" + rng.choice(["\n", " "]) + frag_text(t[1], rng, ind + 1) + rng.choice(["\n", " "]) + pad + "until Done;")
+        else: parts.append(pad + "try" + rng.choice(["\n", " "]) + frag_text(t[1], rng, ind + 1) + rng.choice(["\n", " "]) + pad + "finally" + rng.choice(["\n", " "])
+                           + frag_text(t[2], rng, ind + 1) + rng.choice(["\n", " "]) + pad + "end;")
+    return rng.choice(["\n", " ", "\n\n"]).join(parts)
+def frag_expected(tree, d, k):
+    """the expected lines (level, tokens) and the next token index — a transcription of Fragment.expected"""
+    out = []
+    for t in tree:
+        if t[0] == 's': out.append((min(d, 65535), [k, k + 1])); k += 2
+        elif t[0] == 'a': out.append((min(d, 65535), [k, k + 1, k + 2, k + 3])); k += 4
+        elif t[0] == 'b':
+            out.append((min(d, 65535), [k])); sub, k = frag_expected(t[1], d + 1, k + 1); out += sub
+            out.append((min(d, 65535), [k, k + 1])); k += 2
+        elif t[0] == 'r':
+            out.append((min(d, 65535), [k])); sub, k = frag_expected(t[1], d + 1, k + 1); out += sub
+            out.append((min(d, 65535), [k, k + 1, k + 2])); k += 3
+        else:
+            out.append((min(d, 65535), [k])); sub, k = frag_expected(t[1], d + 1, k + 1); out += sub
+            out.append((min(d, 65535), [k])); sub, k = frag_expected(t[2], d + 1, k + 1); out += sub
+            out.append((min(d, 65535), [k, k + 1])); k += 2
+    return out, k
+def frag_program(rng):
+    tree = frag_tree(rng)
+    text = "begin" + rng.choice(["\n", " "]) + frag_text(tree, rng) + rng.choice(["\n", " "]) + "end."
+    body, k = frag_expected(tree, 1, 1)
+    return text, [(0, [0])] + body + [(0, [k, k + 1]), (0, [k + 2])]
+
 def gen_set(name, n, rng):
     texts = [s["text"] for s in gen.seeds()]
     if name == "seeds": return texts
@@ -157,6 +204,7 @@ def gen_set(name, n, rng):
         return ["const Foo = 1 deprecated; // comment", "const Foo = 1 deprecated; {c} // comment", "var a: b platform; {c}", "var a: b platform {c}; //d", "type t = class a: b deprecated; //c\n c: d library; end;",
                 "const a = 1 deprecated //c\n;", "a: ; //c", "var a: b; //c", "var a: b = c experimental; //c\n d: e platform;{x}{y}", "const a = b deprecated 'x'; //c", "var a: b //c\n deprecated; //d",
                 "{c} const {d} a = 1 {e} deprecated {f}; {g}", "const a = (1) deprecated; //x\n b = [2] platform; //y", "type t = record a: b; //c\n end deprecated; //d", "unit a deprecated; //c"]
+    if name == "fragment": return [frag_program(rng)[0] for _ in range(n)]
     if name == "special":
         return ["if begin", "function ^", "procedure Foo()();", ":", "object for end var do ; case write except function", "(((", ")))", "end. foo bar;", "begin end. x := 1;",
                 "a := b;", "", " ", "//x", "{$R x}", "{$IFDEF A}{$ENDIF}", "[", "]", "<", "a<b>c", "type a<b = c;", "case", "case of", "case x of", "of", "then", "else", "do",
